@@ -98,6 +98,33 @@ fn pool(thorough: bool) -> Vec<RV> {
             l(vec![l(vec![l(vec![])])]),
         ]);
     }
+    // second, separately created copies of some values (equal content, different heap cells), and
+    // values deeply nested down to a difference
+    let nest = |x: RV, d: usize| -> RV {
+        let mut v = x;
+        for _ in 0..d {
+            v = RV::List(vec![v]);
+        }
+        v
+    };
+    p.extend([
+        s("a"),
+        s(""),
+        s("\u{e9}"),
+        s("abcdefghijklmnopqrstuvwxyz"),
+        s("abcdefghijklmnopqrstuvwxyz"),
+        l(vec![s("a")]),
+        l(vec![s("a"), s("b")]),
+        r(vec![("a", n(1.0))]),
+        r(vec![("k", s("a"))]),
+        r(vec![("k", s("a"))]),
+        n(1.5),
+        nest(n(1.0), 40),
+        nest(n(2.0), 40),
+        nest(n(1.0), 40),
+        nest(s("a"), 70),
+        nest(s("b"), 70),
+    ]);
     p
 }
 
